@@ -60,7 +60,10 @@ reg(part('s_all_packedpair', 'src/arch/all/packedpair/mod.rs', 'arch::all::packe
 reg(part('s_generic_packedpair', 'src/arch/generic/packedpair.rs', 'arch::generic::packedpair', **S_OPTS))
 reg(part('s_sse2_packedpair', 'src/arch/x86_64/sse2/packedpair.rs', 'arch::x86_64::sse2::packedpair', **S_OPTS))
 reg(part('s_avx2_packedpair', 'src/arch/x86_64/avx2/packedpair.rs', 'arch::x86_64::avx2::packedpair', **S_OPTS))
-reg(part('memchr_top', 'src/memchr.rs', 'memchr', cfg='x86_64'))
+reg(part('memchr_top', 'src/memchr.rs', 'memchr', cfg='x86_64',
+         # the three `memrchrN_iter` front-ends are `Iterator::rev()` of the double-ended iterators (std adapter, not
+         # ingestible by Verus; X7 turned the trait impls into inherent ones): not extracted
+         drop_items=['fn memrchr_iter', 'fn memrchr2_iter', 'fn memrchr3_iter', 'use core::iter::Rev']))
 reg(part('x86_64_memchr', 'src/arch/x86_64/memchr.rs', 'arch::x86_64::memchr'))
 reg(part('memmem_mod', 'src/memmem/mod.rs', 'memmem', keep_derives=['Clone', 'Copy', 'Default']))
 reg(part('memmem_searcher', 'src/memmem/searcher.rs', 'memmem::searcher',
@@ -85,6 +88,9 @@ reg(part('stub_all_packedpair', None, 'arch::all::packedpair'))
 reg(part('stub_rabinkarp', None, 'arch::all::rabinkarp'))
 reg(part('stub_twoway', None, 'arch::all::twoway'))
 reg(part('lib_root', 'src/lib.rs', '', only_items=['use crate::memchr::{*']))
+# crate-root re-exports of the names that exist in the extracted `memchr` module (lib.rs also re-exports the three
+# memrchrN_iter adapters, which are not extracted)
+reg(part('root_reexport', None, ''))
 reg(part('memmem_reexport', 'src/memmem/mod.rs', 'memmem', only_items=['use crate::memmem::searcher::Pre']))
 
 P0 = ['prelude/vbase.vrs']
@@ -95,7 +101,7 @@ BUILDS = {
     'dev_generic': dict(parts=BASE, prelude=P0),
     'dev_eq': dict(parts=['ext', 'vector', 'all_mod'], prelude=P0),
     'dev_x86': dict(parts=BASE + ['sse2_memchr', 'avx2_memchr'], prelude=P0 + ['prelude/x_x86.vrs']),
-    'dev_top': dict(parts=BASE + ['sse2_memchr', 'avx2_memchr', 'all_memchr', 'x86_64_memchr'], prelude=P0),
+    'dev_top': dict(parts=BASE + ['sse2_memchr', 'avx2_memchr', 'all_memchr', 'x86_64_memchr', 'memchr_top', 'root_reexport'], prelude=P0),
     'dev_swar': dict(parts=BASE + ['all_memchr'], prelude=P0 + ['prelude/x_swar.vrs']),
     'dev_eqrk': dict(parts=['ext', 'vector', 'all_mod', 'all_rabinkarp'], prelude=P0 + ['prelude/x_eqrk.vrs']),
     'dev_pp': dict(parts=BASE + ['all_mod', 'all_packedpair', 'all_default_rank', 'generic_packedpair',
